@@ -1,34 +1,39 @@
 ---- MODULE MC_AclTree ----
-(* Design step for C44 and scenario source (T4).  The rule list comes from the first line of the ndjson file named by env
-   CFG ({"rules": [...], "leaves": [...]}), written by checks/C44.py.  Every check gets every valuation and every lookup
-   behaviour of every base leaf (Modes), the checks are started and their lookups completed in every interleaving.
+(* Design step for C44 and scenario source (T4).  The rule lists come from the ndjson file named by env CFG, one
+   configuration per line ({"rules": [...], "leaves": [...], "base": {occurrence -> base leaf}, "two": bool}), written by
+   checks/C44.py.  For every configuration every check gets every valuation and every lookup behaviour of every base leaf
+   (Modes); the checks are started and their lookups completed in every interleaving.
    I => P: whenever a check is done, its only answer is Decision(rules, truth).  Terminal states are printed as scenarios. *)
 EXTENDS AclTreeImpl, FiniteSets, Json, IOUtils
 CONSTANTS NChecks, Modes, Twin
-Cfg == ndJsonDeserialize(IOEnv.CFG)[1]
-Rules == Cfg.rules
-Leaves == {Cfg.leaves[k] : k \in 1..Len(Cfg.leaves)}
-VARIABLES cks, hist
-vars == <<cks, hist>>
+Cfgs == ndJsonDeserialize(IOEnv.CFG)
+Rules(k) == Cfgs[k].rules
+Leaves(k) == {Cfgs[k].leaves[j] : j \in 1..Len(Cfgs[k].leaves)}
+VARIABLES g,       \* which configuration
+          cks, hist
+vars == <<g, cks, hist>>
 Flip(t) == [l \in DOMAIN t |-> ~t[l]]
-\* Twin: the second check has the complementary valuation and the same lookup behaviour (keeps the 2-check space small)
+\* Twin: the second check has the complementary valuation and the same lookup behaviour (keeps the 2-check space small);
+\* two concurrent checks are explored on the configurations marked "two"
 Init == /\ hist = <<>>
-        /\ \E t1 \in [Leaves -> BOOLEAN], m1 \in [Leaves -> Modes] :
+        /\ g \in {k \in 1..Len(Cfgs) : NChecks = 1 \/ Cfgs[k].two}
+        /\ \E t1 \in [Leaves(g) -> BOOLEAN], m1 \in [Leaves(g) -> Modes] :
              IF NChecks = 1 THEN cks = <<NewCheck(t1, m1)>>
              ELSE IF Twin THEN cks = <<NewCheck(t1, m1), NewCheck(Flip(t1), m1)>>
-             ELSE \E t2 \in [Leaves -> BOOLEAN], m2 \in [Leaves -> Modes] : cks = <<NewCheck(t1, m1), NewCheck(t2, m2)>>
-Start(c) == cks[c].phase = "idle" /\ cks' = Apply(Rules, cks, [op |-> "s", c |-> c]) /\ hist' = Append(hist, [op |-> "s", c |-> c])
-Resume(c) == cks[c].phase = "paused" /\ cks' = Apply(Rules, cks, [op |-> "r", c |-> c]) /\ hist' = Append(hist, [op |-> "r", c |-> c])
+             ELSE \E t2 \in [Leaves(g) -> BOOLEAN], m2 \in [Leaves(g) -> Modes] : cks = <<NewCheck(t1, m1), NewCheck(t2, m2)>>
+Start(c) == cks[c].phase = "idle" /\ cks' = Apply(Rules(g), cks, [op |-> "s", c |-> c]) /\ hist' = Append(hist, [op |-> "s", c |-> c]) /\ UNCHANGED g
+Resume(c) == cks[c].phase = "paused" /\ cks' = Apply(Rules(g), cks, [op |-> "r", c |-> c]) /\ hist' = Append(hist, [op |-> "r", c |-> c]) /\ UNCHANGED g
 Next == \E c \in 1..NChecks : Start(c) \/ Resume(c)
 Spec == Init /\ [][Next]_vars
 \* P: the decision of a finished check is the first-match decision; the callback is called once
-FirstMatchDecides == \A c \in 1..NChecks : cks[c].phase = "done" => cks[c].answers = <<Decision(Rules, cks[c].truth)>>
+FirstMatchDecides == \A c \in 1..NChecks : cks[c].phase = "done" => cks[c].answers = <<Decision(Rules(g), cks[c].truth)>>
 AnswersOnce == \A c \in 1..NChecks : Len(cks[c].answers) <= 1 /\ (cks[c].phase # "done" => cks[c].answers = <<>>)
-\* I: a leaf occurrence is consulted at most once for its value (no re-evaluation on resume), breadcrumbs only while paused
-NoReevaluation == \A c \in 1..NChecks : \A n \in DOMAIN Cfg.base :
-                     Cardinality({k \in 1..Len(cks[c].w.log) : cks[c].w.log[k] = Ev("eval", n)}) <= (IF n \in cks[c].w.answered /\ cks[c].mode[Cfg.base[n]] = "a" THEN 2 ELSE 1)
+\* I: a leaf occurrence is consulted once, or twice when its lookup went asynchronous (no re-evaluation on resume);
+\* breadcrumbs exist only while paused
+NoReevaluation == \A c \in 1..NChecks : \A n \in DOMAIN Cfgs[g].base :
+                     Cardinality({k \in 1..Len(cks[c].w.log) : cks[c].w.log[k] = Ev("eval", n)}) <= (IF n \in cks[c].w.answered /\ cks[c].mode[Cfgs[g].base[n]] = "a" THEN 2 ELSE 1)
 CrumbsOnlyWhilePaused == \A c \in 1..NChecks : (cks[c].phase = "paused") = (cks[c].path # <<>>)
 Terminal == \A c \in 1..NChecks : cks[c].phase = "done"
-DumpScenario == Terminal => PrintT(<<"SCEN", ToJson([ops |-> hist,
+DumpScenario == Terminal => PrintT(<<"SCEN", ToJson([g |-> g, ops |-> hist,
                    checks |-> [c \in 1..NChecks |-> [truth |-> cks[c].truth, mode |-> cks[c].mode, answers |-> cks[c].answers, log |-> cks[c].w.log]]])>>)
 ====
